@@ -644,6 +644,15 @@ class BzrUploader:
                         self.outf.write(f"Ignoring {change.path[0]}\n")
                         self.outf.write(f"Ignoring {change.path[1]}\n")
                     continue
+                if self.is_ignored(change.path[1]):
+                    # The new path is not uploaded, whatever is there stays
+                    # untouched: only the old path (and what is left below
+                    # it) has to go.
+                    if change.kind[0] == "directory":
+                        self._up_delete_tree(change.path[0])
+                    else:
+                        self.delete_remote_file(change.path[0])
+                    continue
                 if change.kind[0] != change.kind[1] or (
                     change.kind[1] == "symlink" and change.changed_content
                 ):
